@@ -333,12 +333,25 @@ def m11_exception_count(mod, run, w):
             seenv.add(o["v"]); x = g.imap[o["v"]]
             if x.op == "phi" and x.block.id in loops: hp = x; break
             if x.op == "phi": stack += [c_["v"] for c_ in x["incoming"]]
-        why = None
-        if hp is None: why = "it is computed arithmetically (%s), not counted" % g.imap[v["v"]].op if v["k"] == "inst" else "it is not counted"
+        why = None; undecided = None
+        def positional(o, d=0):
+            """pure arithmetic over parameters and constants (an index computation): no element of any array, no search result enters"""
+            o = strip_casts(g, o)
+            if o["k"] in ("int", "arg"): return True
+            if o["k"] != "inst" or d > 12: return False
+            x = g.imap[o["v"]]
+            if x.op in ("add", "sub", "mul", "udiv", "sdiv", "urem", "shl", "lshr", "and", "select", "icmp"): return all(positional(y, d + 1) for y in x.ops)
+            if x.op == "phi" and x.block.id not in loops: return all(positional(c_["v"], d + 1) for c_ in x["incoming"])
+            return False
+        if hp is None:
+            if positional(v): why = "it is computed from positions (%s of parameters and indices), not counted" % (g.imap[v["v"]].op if v["k"] == "inst" else "a copy")
+            else: undecided = "it is not a running count; whether the figure equals the number of elements above the threshold is a value-level question"
         else:
             body = loops[hp.block.id]
             ins = [c_ for c_ in hp["incoming"] if c_["b"] not in body]; backs = [c_ for c_ in hp["incoming"] if c_["b"] in body]
-            if not (len(ins) == 1 and ins[0]["v"]["k"] == "int" and int(ins[0]["v"]["v"]) == 0): why = "the count does not start from 0"
+            if not (len(ins) == 1 and ins[0]["v"]["k"] == "int" and int(ins[0]["v"]["v"]) == 0):
+                if len(ins) == 1 and positional(ins[0]["v"]): why = "the count starts from a figure computed from positions, and is only ever increased from there"
+                else: undecided = "the count does not start from 0"
             else:
                 # every increment sits on the true side of `element > T` with the element loaded from the input array
                 incs = []; stack = [c_["v"] for c_ in backs]; seen2 = set()
@@ -349,7 +362,7 @@ def m11_exception_count(mod, run, w):
                     if x.op == "phi": stack += [c_["v"] for c_ in x["incoming"]]
                     elif x.op == "select": incs.append(x)
                     elif x.op == "add": incs.append(x)
-                    else: why = "the count is updated by %s" % x.op
+                    else: undecided = "the count is updated by %s" % x.op
                 fi = w.fi(g).prepare(); g.dom()
                 def elem_above(ci, truth_needed=True):
                     if ci.op != "icmp": return False
@@ -359,20 +372,30 @@ def m11_exception_count(mod, run, w):
                     if a["k"] != "inst" or g.imap[a["v"]].op != "load": return False
                     return fi.ptr(g.imap[a["v"]].ops[0])[0] == ("arg", vk)
                 for x in incs:
-                    if why: break
+                    if why or undecided: break
                     if x.op == "add":
-                        if not (x.ops[1]["k"] == "int" and int(x.ops[1]["v"]) == 1): why = "the count moves by something other than one"; break
+                        # `n += (values[i] > T)`: the comparison itself is what is added
+                        flag = next((strip_casts(g, o_) for o_ in x.ops if strip_casts(g, o_)["k"] == "inst" and g.imap[strip_casts(g, o_)["v"]].op == "icmp"), None)
+                        if flag is not None:
+                            if not elem_above(g.imap[flag["v"]]): undecided = "what is added to the count is a comparison on something other than an element of the input"
+                            continue
+                        if not (x.ops[1]["k"] == "int" and int(x.ops[1]["v"]) == 1): undecided = "the count moves by something other than one"; break
                         guarded = False
                         for d in g.dom_chain(x.block.id):
                             blk = g.bmap[d]
                             if len(blk.preds) != 1 or blk.id not in body: continue
                             t = blk.preds[0].term
                             if t.op == "br" and len(t.ops) == 3 and t.ops[0]["k"] == "inst" and t.ops[2]["v"] == blk.id and t.ops[1]["v"] != blk.id and elem_above(g.imap[t.ops[0]["v"]]): guarded = True
-                        if not guarded: why = "an increment is not governed by `values[i] > thresholdValue` on an element of the input"
+                        if not guarded:
+                            anycmp = any(len(g.bmap[d_].preds) == 1 and g.bmap[d_].preds[0].term.op == "br" and len(g.bmap[d_].preds[0].term.ops) == 3 for d_ in g.dom_chain(x.block.id) if d_ in body and d_ != hp.block.id)
+                            if anycmp: undecided = "an increment is governed by a test that is not `values[i] > thresholdValue` on an element of the input"
+                            else: why = "an increment is not governed by any test of an element"
                     else:
                         c0 = strip_casts(g, x.ops[0])
-                        if not (c0["k"] == "inst" and elem_above(g.imap[c0["v"]])): why = "an increment is not governed by `values[i] > thresholdValue` on an element of the input"
+                        if not (c0["k"] == "inst" and elem_above(g.imap[c0["v"]])): undecided = "an increment is selected by a test that is not `values[i] > thresholdValue` on an element of the input"
                 if not incs and not why: why = "the count is never incremented"
+        if why is None and undecided is not None:
+            run.defer_broken("M11 %s: %s (stored at %s)" % (g.name, undecided, loc(st))); continue
         run.check(why is None, "M11-exception-count-is-counted", {"fn": g.name, "at": loc(st)},
                   Finding("M11-exception-count-not-counted", g.name, "exceptionCount", "store",
                           "the value stored into exceptionCount at %s is not a count of the input elements above the threshold value: %s. varintPFOREncode writes that many exception records but fills one per element above the threshold, so the two must be the same count (ties with the percentile value make a position-derived figure larger: unwritten records are emitted)" % (loc(st), why), loc=loc(st)))
